@@ -88,8 +88,12 @@ def updVar (f : File) (i : Nat) (g : Var → Var) : File :=
 /-- what an attribute looks like after `hdf_write_attr` + `hdf_read_attrs` -/
 def reloadAttrs (l : AList) : AList := decodeAttrs (encodeAttrs l)
 
+/-- is this one of the default names `SDcreate` gives: "fakeDim" followed by one or more decimal digits -/
+def isDefaultName (n : Bytes) : Bool :=
+  startsWith nFakeDim n && n.length > nFakeDim.length && (n.drop nFakeDim.length).all fun c => 48 ≤ c && c ≤ 57
+
 /-- `hdf_write_xdr_cdf`, dimension loop: slot `i` is written unless an earlier slot has the same name and size;
-    `hdf_write_dim` renames every name starting with "fakeDim" to "fakeDim<number of dims written so far>".
+    `hdf_write_dim` renames a default name "fakeDim<n>" to "fakeDim<number of dims written so far>".
     Returns the dims as read back, and for every slot the name under which its dimension went to disk. -/
 def saveDims (ents : List Dim) : List Dim × List Bytes :=
   let rec go (rest seen : List Dim) (seenNames : List Bytes) (written : List Dim) (names : List Bytes) : List Dim × List Bytes :=
@@ -99,9 +103,20 @@ def saveDims (ents : List Dim) : List Dim × List Bytes :=
       match (seen.zip seenNames).find? (fun p => p.1 == d) with
       | some p => go t (d :: seen) (p.2 :: seenNames) written (p.2 :: names)
       | none =>
-        let dn := if startsWith nFakeDim d.name then nFakeDim ++ dec written.length else d.name
+        let dn := if isDefaultName d.name then nFakeDim ++ dec written.length else d.name
         go t (d :: seen) (dn :: seenNames) ({ name := dn, size := d.size } :: written) (dn :: names)
   go ents [] [] [] []
+
+/-- `hdf_write_dim`: a dimension whose default name changes takes its coordinate variable (rank 1, coordinate kind,
+    defined on that dimension object, carrying the old name) along -/
+def renameCoordVars (slots : List Nat) (ents : List Dim) (slotNames : List Bytes) (vars : List Var) : List Var :=
+  vars.map fun v =>
+    match v.dims with
+    | [s] =>
+      let old := (ents.getD s default).name
+      let new := slotNames.getD s old
+      if v.vtype == IS_CRDVAR && v.name == old && new != old && slots[s]?.isSome then { v with name := new } else v
+    | _ => v
 
 /-- `hdf_write_var` + `hdf_read_vars` for one variable: dimensions are found again BY NAME (`NC_dimid`), attributes go
     through the Vdata form, name/type/kind/ref/data stay. `none` = `NC_dimid` fails and the whole file cannot be opened. -/
@@ -114,7 +129,7 @@ def saveVar (slotNames : List Bytes) (dims : List Dim) (v : Var) : Option Var :=
 def save (f : File) : Option Disk := do
   let ents := f.slots.map fun o => f.objs.getD o default
   let (dims, slotNames) := saveDims ents
-  let vars ← f.vars.mapM (saveVar slotNames dims)
+  let vars ← (renameCoordVars f.slots ents slotNames f.vars).mapM (saveVar slotNames dims)
   some { dims := dims, vars := vars, gattrs := reloadAttrs f.gattrs }
 
 /-- `SDstart(name, DFACC_CREATE)` -/
@@ -176,19 +191,30 @@ def setRefs (f : File) (first : Nat) (refs : List Nat) : File × Out :=
 
 /-! ## coordinate variables -/
 
-def isCoordFor (dn : Bytes) (v : Var) : Bool :=
-  v.dims.length == 1 && v.name == dn && (v.vtype == IS_CRDVAR || v.vtype == UNKNOWN)
+/-- is the rank-1 variable `v` defined on the dimension object `o` (`handle->dims->values[assoc[0]] == dim`) -/
+def onObj (slots : List Nat) (o : Nat) (v : Var) : Bool :=
+  match v.dims with
+  | [s] => slots[s]? == some o
+  | _ => false
+
+def isCoordFor (slots : List Nat) (o : Nat) (dn : Bytes) (v : Var) : Bool :=
+  onObj slots o v && v.name == dn && (v.vtype == IS_CRDVAR || v.vtype == UNKNOWN)
 
 /-- `SDIgetcoordvar(handle, dim, id, nt)`: the first rank-1 coordinate variable carrying the dimension's name; its type
     is changed when a different non-zero `nt` is given; otherwise a new coordinate variable (float32 if `nt` = 0) is
     appended.  Returns the variable index, `none` = FAIL. -/
 def getCoordVar (f : File) (d : Dim) (slot nt : Nat) : File × Option Nat :=
-  match f.vars.findIdx? (isCoordFor d.name) with
+  match f.vars.findIdx? (isCoordFor f.slots (f.slots.getD slot 0) d.name) with
   | some i =>
     let v := f.vars.getD i default
     if nt != 0 && nt != v.hdftype then
       match unmap nt, ntSize nt with
-      | some _, some _ => (updVar f i fun v => { v with hdftype := nt }, some i)
+      | some _, some sz =>
+        -- stored values of another element size: their data element is deleted (it cannot grow), a writable file is needed
+        if !v.scale.isEmpty && sz != (ntSize v.hdftype).getD 0 then
+          if !f.rdwr then (f, none)
+          else (updVar f i fun v => { v with hdftype := nt, scale := [], hasData := false }, some i)
+        else (updVar f i fun v => { v with hdftype := nt }, some i)
       | _, _ => (f, none)
     else (f, some i)
   | none =>
@@ -248,6 +274,9 @@ def sdSetAttr (f : File) (o : Obj) (name : Bytes) (nt : Nat) (count : Int) (val 
   match apFromId f o with
   | (f1, none) => (f1, .fail)
   | (f1, some loc) =>
+    -- a name that does not fit a Vdata name is refused; so is a file opened read-only
+    if name.length > VSNAMELENMAX then (f1, .fail) else
+    if !f1.rdwr then (f1, .fail) else
     match sdiPut (attrsAt f1 loc) { name := name, nt := nt, count := count.toNat, val := val } with
     | none => (f1, .fail)
     | some l' => ({ setAttrsAt f1 loc l' with dirty := true }, .ok)
@@ -295,6 +324,7 @@ def withVar (f : File) (i : Nat) (k : Var → File × Out) : File × Out :=
 /-- `SDsetdatastrs(sdsid, l, u, f, c)` -/
 def sdSetDataStrs (f : File) (i : Nat) (l u fm c : Option Bytes) : File × Out :=
   withVar f i fun v =>
+    if !f.rdwr then (f, .fail) else
     let (al, ok) := sdiPutAll v.attrs (datastrsPuts l u fm c)
     let f1 := updVar f i fun v => { v with attrs := al }
     if !ok then (f1, .fail)
@@ -314,6 +344,7 @@ def sdGetDataStrs (f : File) (i : Nat) (mask len : Nat) : File × Out :=
 /-- `SDsetcal` -/
 def sdSetCal (f : File) (i : Nat) (cal cale ioff ioffe nt : Bytes) : File × Out :=
   withVar f i fun v =>
+    if !f.rdwr then (f, .fail) else
     let (al, ok) := sdiPutAll v.attrs (calPuts cal cale ioff ioffe nt)
     let f1 := updVar f i fun v => { v with attrs := al }
     if ok then ({ f1 with dirty := true }, .ok) else (f1, .fail)
@@ -333,6 +364,7 @@ def sdGetCal (f : File) (i : Nat) : File × Out :=
 /-- `SDsetrange(sdsid, pmax, pmin)` -/
 def sdSetRange (f : File) (i : Nat) (pmax pmin : Bytes) : File × Out :=
   withVar f i fun v =>
+    if !f.rdwr then (f, .fail) else
     match ntSize v.hdftype with
     | none => (f, .fail)
     | some sz =>
@@ -361,6 +393,7 @@ def sdGetRange (f : File) (i : Nat) : File × Out :=
 /-- `SDsetfillvalue` -/
 def sdSetFill (f : File) (i : Nat) (val : Bytes) : File × Out :=
   withVar f i fun v =>
+    if !f.rdwr then (f, .fail) else
     match sdiPut v.attrs (fillPut v.hdftype (val.take ((ntSize v.hdftype).getD 0))) with
     | none => (f, .fail)
     | some al => ({ updVar f i (fun v => { v with attrs := al }) with dirty := true }, .ok)
@@ -403,7 +436,7 @@ def sdDimInfo (f : File) (slot : Nat) : File × Out :=
   match dimOf f slot with
   | none => (f, .fail)
   | some d =>
-    match f.vars.find? (isCoordFor d.name) with
+    match f.vars.find? (isCoordFor f.slots (f.slots.getD slot 0) d.name) with
     | some v => (f, .items [.hex d.name, .int d.size, .int (if v.hasData then v.hdftype else 0), .int v.attrs.length])
     | none => (f, .items [.hex d.name, .int d.size, .int 0, .int 0])
 
@@ -413,6 +446,7 @@ def sdSetDimStrs (f : File) (slot : Nat) (l u fm : Option Bytes) : File × Out :
   match dimOf f slot with
   | none => (f, .fail)
   | some d =>
+    if !f.rdwr then (f, .fail) else
     match getCoordVar f d slot 0 with
     | (f1, none) => (f1, .fail)
     | (f1, some i) =>
@@ -427,7 +461,7 @@ def sdGetDimStrs (f : File) (slot : Nat) (mask len : Nat) : File × Out :=
   match dimOf f slot with
   | none => (f, .fail)
   | some d =>
-    let cands := f.vars.filter fun v => v.dims.length == 1 && v.name == d.name
+    let cands := f.vars.filter fun v => onObj f.slots (f.slots.getD slot 0) v && v.name == d.name
     if cands.any (·.vtype == IS_SDSVAR) then (f, .fail) else
     let al := match cands.getLast? with
       | some v => v.attrs
@@ -444,12 +478,12 @@ def sdSetDimScale (f : File) (slot : Nat) (count : Nat) (nt : Nat) (buf : Bytes)
   match dimOf f slot with
   | none => (f, .fail)
   | some d =>
+    if !f.rdwr then (f, .fail) else
     if d.size != 0 && count != d.size then (f, .fail) else
     match getCoordVar f d slot nt with
     | (f1, none) => (f1, .fail)
     | (f1, some i) =>
       let f2 := { f1 with dirty := true }
-      if !f2.rdwr then (f2, .fail) else
       let v := f2.vars.getD i default
       -- the variable found BY NAME may belong to another dimension (an orphan left behind by a rename): NCvario checks
       -- the edge against the variable's own shape
